@@ -386,6 +386,7 @@ func (mr *memRepo) blobCreate(locked bool, opts ...BlobOpt) (BlobCreator, string
 		if ok {
 			// the content was just pushed again, refresh the time used by the GC grace period
 			b.m.mod = time.Now()
+			mr.timeMod = b.m.mod
 			return nil, "", types.ErrBlobExists
 		}
 	}
